@@ -1,10 +1,27 @@
 (* C13 -- Disk space is reclaimed and segment identities are never reused.
-   Only statements here; proofs in Wal/Crash*.v.  Histories, guards and the crash
-   adversary are described in Props/C01.v.  Every crash point is covered BY PROOF.
-   (Deletion delayed by readers that still hold a segment open is not part of this
-   model: files are deleted when the call that drops them returns.) *)
+   Only statements here; proofs in Wal/Crash*.v and Wal/LiveDirFacts.v.  Histories,
+   guards and the crash adversary are described in Props/C01.v.  Every crash point is
+   covered BY PROOF.
+   Clause 1 (running WAL): C13_live_dir_exact -- after EVERY call that returns (and after
+   every Open) the directory holds exactly the files of the listed segments, with no side
+   condition; C13_delete_reclaims -- the literal form for a DeleteRange that returns nil.
+   Clause 2 (after Open, incl. interrupted truncations/rotations): C13_dir_exact_after_open,
+   C13_dir_exact_after_reopen.  Clause 3 (ids): C13_no_create_collision, C13_ids_below_next.
+   Scope of the model (sequential histories):
+   - files are deleted when the call that drops them returns (in the code: when the
+     reference DeleteRange/StoreLogs itself holds on the replaced state is released, before
+     the call returns); deletion delayed by READERS that still hold an older state is not
+     part of this model ("in-flight reads have finished" is built in);
+   - the background rotation runs as one step at the start of the next mutating call
+     ([settle]): a state with a rotation pending is an Up state (exact: the sealed tail is
+     still the listed tail); while the goroutine is actually in flight the new tail is
+     listed before its file exists -- that window is covered by the crash theorems, not by
+     the live one;
+   - a failed Delete is only logged by the code (files stay until the next Open); histories
+     here have no I/O faults. *)
 From RW Require Import Base.Bytes Fmt.Codec Fmt.Frame Wal.Model Wal.Spec Wal.Hist
-  Wal.CrashInv Wal.CrashCalls10 Wal.CrashThm Wal.CrashExamples Wal.CrashExamplesFacts.
+  Wal.CrashInv Wal.CrashCalls10 Wal.CrashThm Wal.CrashExamples Wal.CrashExamplesFacts
+  Wal.LiveDir Wal.LiveDirFacts.
 Open Scope N_scope.
 
 Theorem C13_crash_refinement : crash_refinement_stmt.
@@ -34,6 +51,39 @@ Theorem C13_dir_exact_after_reopen :
     dir_exact (e_disk (ss_env (snd (step_model c s OReopen)))) = true.
 Proof. exact reopen_dir_exact. Qed.
 Print Assumptions C13_dir_exact_after_reopen.
+
+(* RUNNING WAL: in every Up state of every history -- after every StoreLogs (also one that
+   sealed the tail and left the rotation pending, or reset the empty first segment),
+   DeleteRange, stable-store call, read, Close+Open and every recovery -- the directory
+   holds exactly the files of the segments listed in the metadata.  No side condition. *)
+Theorem C13_live_dir_exact :
+  forall c steps s,
+    (cfg_ok c /\ Forall hstep_wf steps /\ short_enough steps) ->
+    hs_mode (hist_run c hist_init steps) = Up s ->
+    dir_exact (e_disk (ss_env s)) = true.
+Proof. exact live_dir_exact. Qed.
+Print Assumptions C13_live_dir_exact.
+
+(* The property text literally: DeleteRange(mn, mx) returns nil in a running WAL (after any
+   history).  s0 is the state it works on (a pending rotation is awaited first).  Then
+   (1) no segment listed in s0 that lies wholly inside [mn, mx] (seg_inside: mn <= min and
+       last index <= mx, non-empty) has a file any more,
+   (2) every remaining file is the file of a listed segment,
+   (3) every listed segment has its file. *)
+Theorem C13_delete_reclaims :
+  forall c steps s mn mx,
+    (cfg_ok c /\ Forall hstep_wf (steps ++ [HOp (ODelete mn mx)]) /\ short_enough (steps ++ [HOp (ODelete mn mx)])) ->
+    hs_mode (hist_run c hist_init steps) = Up s ->
+    fst (step_model c s (ODelete mn mx)) = ROk ->
+    let s0 := settle c s in
+    let s' := snd (step_model c s (ODelete mn mx)) in
+    (forall x, In x (st_segs (ss_wal s0)) ->
+       seg_inside mn mx (tail_last (st_tail (ss_wal s0))) x = true ->
+       lookup (name_of x) (dk_files (e_disk (ss_env s'))) = None) /\
+    (forall n f, lookup n (dk_files (e_disk (ss_env s'))) = Some f -> listed (st_segs (ss_wal s')) n = true) /\
+    (forall x, In x (st_segs (ss_wal s')) -> lookup (name_of x) (dk_files (e_disk (ss_env s'))) <> None).
+Proof. exact delete_reclaims. Qed.
+Print Assumptions C13_delete_reclaims.
 
 (* In every history no I/O action ever fails; in particular `AFail (ACreate ..)`, the
    record of a Create that found the file name taken (O_EXCL), never occurs: creating a
@@ -87,4 +137,29 @@ Example C13_ex_fresh_ids :
   final_ok cfg256 hist_trunc_after_commit = true /\
   map fst (dk_files (disk_of (hist_run cfg256 hist_init hist_trunc_after_commit))) = [(1, 0); (3, 1)] /\
   option_map ps_next_id (dk_meta (disk_of (hist_run cfg256 hist_init hist_trunc_after_commit))) = Some 2.
+Proof. vm_compute. repeat split; reflexivity. Qed.
+
+(* L: running WAL, segment size 128 (two entries per segment).  Seven appends:
+      files (1,0) (3,1) (5,2) (7,3); DeleteRange(0,5): (1,0) = [1,2] and (3,1) = [3,4] lie
+      wholly inside and are gone, (5,2) keeps entry 6; DeleteRange(7,9): the tail (7,3) = [7]
+      lies wholly inside and is gone, the new tail is (7,4) (fresh id).  After the second
+      append the tail is sealed and the rotation is pending: still exact. *)
+Example C13_ex_live_guards : hist_ok cfg128 hist_live_trunc.
+Proof. exact hist_live_trunc_ok. Qed.
+Example C13_ex_live_head_trunc :
+  live_files cfg128 hist_live_stores = [(1, 0); (3, 1); (5, 2); (7, 3)] /\
+  live_inside cfg128 hist_live_stores 0 5 = [((1, 0), true); ((3, 1), true); ((5, 2), false); ((7, 3), false)] /\
+  live_files cfg128 hist_live_head = [(5, 2); (7, 3)] /\
+  live_segs cfg128 hist_live_head = [((5, 2), 6, 6, true); ((7, 3), 7, 0, false)].
+Proof. vm_compute. repeat split; reflexivity. Qed.
+Example C13_ex_live_tail_trunc :
+  live_inside cfg128 hist_live_head 7 9 = [((5, 2), false); ((7, 3), true)] /\
+  live_files cfg128 hist_live_trunc = [(5, 2); (7, 4)] /\
+  live_segs cfg128 hist_live_trunc = [((5, 2), 6, 6, true); ((7, 4), 7, 0, false)] /\
+  final_ok cfg128 hist_live_trunc = true.
+Proof. vm_compute. repeat split; reflexivity. Qed.
+Example C13_ex_live_rotation_pending :
+  live_rotation_pending cfg128 (firstn 3 hist_live_stores) = true /\
+  live_files cfg128 (firstn 3 hist_live_stores) = [(1, 0)] /\
+  live_dir_ok (hist_run cfg128 hist_init (firstn 3 hist_live_stores)) = true.
 Proof. vm_compute. repeat split; reflexivity. Qed.
